@@ -400,3 +400,28 @@ Definition evolves (tc : tce) (t1 t2 : adesc) : bool :=
   | Mutable, Mutable => by_id_rules tc ms1 ms2
   | _, _ => false
   end.
+
+(* ------------------------------------------------------------ typed samples (derive) *)
+(* dds_derive/src/derive/type_support.rs:213-249, structures with named fields: the typed
+   sample `Foo::create_sample(&mut decoded)` that a DataReader<Foo> hands to the application
+   (dcps/infrastructure/sample_info.rs:21; None = the application sees `data: None`), shown
+   as `create_dynamic_sample` of the result.  A member that is absent from the decoded
+   DynamicData is Default::default() only when it is optional (-> None, not stored again) or
+   has try_construct = USE_DEFAULT; otherwise the whole sample is None. *)
+Definition typed_member_ok (d : dyn) (m : amember) : bool :=
+  match lookup (am_id m) d with
+  | Some _ => true
+  | None => m_opt (am_info m) || am_use_default m
+  end.
+Definition typed_sample (t1 : adesc) (d : dyn) : option dyn :=
+  if forallb (typed_member_ok d) (ad_members t1) then
+    Some (fold_left (fun acc m =>
+            match lookup (am_id m) d with
+            | Some v => insert (am_id m) v acc
+            | None => if m_opt (am_info m) then acc
+                      else match default_val (ty_of_aty (am_ty m)) with
+                           | Some z => insert (am_id m) z acc
+                           | None => acc
+                           end
+            end) (ad_members t1) [])
+  else None.
